@@ -2,16 +2,19 @@
 from props import compile_common as cc
 
 LEVEL = 'proof'
-MODULES = ['Pysmi.Props.C09']
-LAKE_TARGETS = ['Pysmi.Props.C09']
+MODULES = ['Pysmi.Props.C09', 'Pysmi.Props.C09Failure']
+LAKE_TARGETS = ['Pysmi.Props.C09', 'Pysmi.Props.C09Failure']
 THEOREMS = [
     'Pysmi.Compile.C09_no_put_before_gate',
     'Pysmi.Compile.C09_gate',
     'Pysmi.Compile.C09_store_calls',
     'Pysmi.Compile.C09_store_status',
+    'Pysmi.Compile.failed_reaches_gate',
+    'Pysmi.Compile.C09_unrepaired_failure_blocks',
+    'Pysmi.Compile.C09_generation_failure_blocks',
 ]
 TECHNIQUE = 'Lean 4 theorems about a model of MibCompiler.compile over abstract component oracles; differential correspondence (status map + full call trace) against the real compile() driven by scripted doubles; oracle search'
-LEVEL_TEXT = ('Proved in Lean for every configuration, graph, failure placement and option set: phases 1-5 never call the writer; if a failure survives borrowing and errors are not ignored there is no writer call at all and every built module is unprocessed; otherwise the writer calls are exactly one per built module, in order, with its text, and each ends compiled/borrowed/failed as the store step dictates. Tied to compile() by the trace correspondence.')
+LEVEL_TEXT = ('Proved in Lean for every configuration, graph, failure placement and option set: phases 1-5 never call the writer; if a failure survives borrowing and errors are not ignored there is no writer call at all and every built module is unprocessed; a name recorded as failed or missing when discovery ends, or a module whose code generation fails, that no borrower delivers does survive to the gate (C09_unrepaired_failure_blocks, C09_generation_failure_blocks), so the premise is stated on what went wrong, not on the internal state at the gate; otherwise the writer calls are exactly one per built module, in order, with its text, and each ends compiled/borrowed/failed as the store step dictates. Tied to compile() by the trace correspondence.')
 LEVEL_NOTE = ('Trusted: Lean kernel + standard axioms; the hand-written model of compile() (Model/Compile.lean), tied to '
               '/repo by the correspondence on every run; component doubles stand for readers/parser/generators/searchers/'
               'borrowers/writer (their real behaviour is the subject of other properties).')
